@@ -251,6 +251,32 @@ MUT = {   # name -> (kind, op descriptor in Ops.v vocabulary)
     "r_iter_d": ("dict", ("DIter",)), "r_eq_d": ("dict", ("DEq", {"a": 0, "n": {"k": 1}})), "r_get_d": ("dict", ("DGetDefault", "x", None)),
     "r_call_l": ("list", ("LCall",)), "r_get_l": ("list", ("LGet", 0)), "r_len_l": ("list", ("LLen",)),
 }
+# forbidden data (C11) travels to the child process as markers (JSON cannot carry an int key or a complex number)
+BAD_MUT = {
+    "extend_badkey": ("list", ("LExtend", [{"@@badkey": "x"}])), "append_badkey": ("list", ("LAppend", {"w": {"@@badkey": 1}})),
+    "extend_badval": ("list", ("LExtend", ["@@badval"])), "iadd_badkey": ("list", ("LIAdd", [{"@@badkey": 2}])),
+    "lset_badkey": ("list", ("LSet", 0, [{"@@badkey": 2}])), "insert_badval": ("list", ("LInsert", 0, ["@@badval"])),
+    "set_badkey": ("dict", ("DSet", "q", {"@@badkey": 1})), "update_badkey": ("dict", ("DUpdate", {"v": [{"@@badkey": 1}]})),
+    "setdefault_badval": ("dict", ("DSetdefault", "sd", ["@@badval"])), "reset_badkey": ("dict", ("DReset", {"r": {"@@badkey": 1}})),
+}
+
+
+def unmark(v):
+    if isinstance(v, dict):
+        return {(1 if k == "@@badkey" else k): unmark(x) for k, x in v.items()}
+    if isinstance(v, (list, tuple)):
+        return [unmark(x) for x in v]
+    return complex(1, 2) if v == "@@badval" else v
+
+
+def has_forbidden(v):
+    if isinstance(v, dict):
+        return any(not isinstance(k, str) or has_forbidden(x) for k, x in v.items())
+    if isinstance(v, (list, tuple)):
+        return any(has_forbidden(x) for x in v)
+    return not (v is None or isinstance(v, (str, int, float, bool)))
+
+
 NESTED_MUT = {"n_set": ("DSet", "z", 1), "n_clear": ("DClear",), "n_reset": ("DReset", {"q": 2}), "n_update": ("DUpdate", {"k": 2, "w": 3})}
 
 
@@ -291,11 +317,25 @@ def child(spec):
     files = [os.path.join(d, f"f{i}.json") for i in range(2)]
     kind = "list" if spec["cls"].endswith("List") else "dict"
     init = copy.deepcopy(LIST_INIT if kind == "list" else DICT_INIT)
+    if spec.get("init_extra") and kind == "dict":
+        init["l"] = [1, 2]
     threads = spec["threads"]         # list of {"name", "obj", "file", "path", "op", "read"}
     per_file_ops = {}
+    bad_threads = {t["name"] for t in threads if t.get("bad")}
     for t in threads:
-        per_file_ops.setdefault(t["file"], []).append((t["name"], t["path"], tuple(t["op"])))
-    allowed = {fi: serial_outcomes(init, ops) for fi, ops in per_file_ops.items()}
+        per_file_ops.setdefault(t["file"], [])
+        if not t.get("bad"):
+            per_file_ops[t["file"]].append((t["name"], t["path"], tuple(t["op"])))
+    # operations done by the main thread inside the context before the threads start (e.g. a buffered modification)
+    pre = spec.get("pre", [])          # list of {"obj", "file", "op"}
+    init_of = {}
+    for fi in set(list(per_file_ops) + [p["file"] for p in pre]):
+        st0 = copy.deepcopy(init)
+        for p in pre:
+            if p["file"] == fi:
+                plain_apply(st0, [], tuple(p["op"]))
+        init_of[fi] = st0
+    allowed = {fi: serial_outcomes(init_of[fi], ops) for fi, ops in per_file_ops.items()}
     buffered, cap = spec.get("buffered"), spec.get("cap")
     default_cap = cls.get_buffer_capacity() if hasattr(cls, "get_buffer_capacity") else None
 
@@ -310,11 +350,16 @@ def child(spec):
         install([cls])
         objs = {}
         for t in threads:
+            if t.get("construct"):
+                continue                      # this thread opens its own object (first user of the file's lock)
             if t["obj"] not in objs:
                 objs[t["obj"]] = cls(files[t["file"]])
                 objs[t["obj"]]()
         handles = {}
         for t in threads:
+            if t.get("construct"):
+                handles[t["name"]] = None
+                continue
             h = objs[t["obj"]]
             for k in t["path"]:
                 h = h[k]
@@ -323,10 +368,22 @@ def child(spec):
         if buffered:
             ctx = cls.buffer_backend(cap) if cap is not None else cls.buffer_backend()
             ctx.__enter__()
+        for p in pre:
+            if p["obj"] not in objs:
+                objs[p["obj"]] = cls(files[p["file"]])
+            o_ = objs[p["obj"]]
+            apply_lop(o_, copy.deepcopy(tuple(p["op"]))) if kind == "list" else apply_dop(o_, copy.deepcopy(tuple(p["op"])))
         for t in threads:
             h = handles[t["name"]]
-            op = tuple(t["op"])
+            op = tuple(unmark(list(t["op"]))) if t.get("bad") else tuple(t["op"])
             conv = (lambda x: x._to_base() if hasattr(x, "_to_base") else x)
+            if t.get("construct"):
+                def body(t=t, op=op, conv=conv):
+                    o = cls(files[t["file"]])
+                    objs[t["name"] + ":own"] = o
+                    return copy.deepcopy(apply_lop(o, copy.deepcopy(op), conv) if kind == "list" else apply_dop(o, copy.deepcopy(op), conv))
+                s.spawn(t["name"], body)
+                continue
             is_list = isinstance(object.__getattribute__(h, "_data"), list)
             s.spawn(t["name"], (lambda h=h, op=op, is_list=is_list: copy.deepcopy(
                 apply_lop(h, copy.deepcopy(op), conv) if is_list else apply_dop(h, copy.deepcopy(op), conv))))
@@ -344,6 +401,10 @@ def child(spec):
                     disk.append(json.load(fh))
             res = {tn: (["ok", r[1]] if r[0] == "ok" else ["exc", r[1]]) for tn, r in s.results.items()}
             size = cls.get_current_buffer_size() if hasattr(cls, "get_current_buffer_size") else 0
+            if bad_threads:
+                mem_bad = [name for name, o in objs.items() if has_forbidden(o._to_base())]
+                if mem_bad:
+                    err = (err or "") + f" forbidden data in the memory of {mem_bad}"
             return ("DONE", disk, res, err, size)
         return finish
 
@@ -355,7 +416,13 @@ def child(spec):
             return False, f"context exit raised {err}"
         if buffered and size != 0:
             return False, f"buffer size {size} after the context exited"
+        for tn in bad_threads:
+            r = res.get(tn)
+            if r is None or r[0] != "exc" or r[1] not in ("TypeError", "ValueError", "KeyTypeError", "InvalidKeyError"):
+                return False, f"thread {tn} offered forbidden data and got {r} instead of a TypeError/ValueError"
         for tn, r in res.items():
+            if tn in bad_threads:
+                continue
             if r[0] == "exc" and not any(o[1].get(tn, [None])[0] == "exc" for fi in allowed for o in allowed[fi]):
                 return False, f"thread {tn} failed with {r[1]}"
         for fi, outs in allowed.items():
@@ -388,8 +455,32 @@ def child(spec):
 
 
 def thread_spec(name, mut, obj, file=0, path=(), read=False):
+    if mut in BAD_MUT:
+        kind, op = BAD_MUT[mut]
+        return {"name": name, "obj": obj, "file": file, "path": list(path), "op": list(op), "read": False, "mut": mut, "bad": True}
     kind, op = MUT[mut] if mut in MUT else ("dict", NESTED_MUT[mut])
     return {"name": name, "obj": obj, "file": file, "path": list(path), "op": list(op), "read": read, "mut": mut}
+
+
+def scenarios_c11(tier):
+    """C11 next to a concurrent writer: a thread offering forbidden data is rejected and nothing forbidden gets in, whatever the
+    other thread is doing on the same object (validation must not depend on state another thread toggles)."""
+    out = []
+    lists = [("append_c", b) for b in ("extend_badkey", "append_badkey", "extend_badval", "iadd_badkey", "lset_badkey", "insert_badval")]
+    dicts = [("set_c", b) for b in ("set_badkey", "update_badkey", "setdefault_badval", "reset_badkey")] + [("update_c", "update_badkey")]
+    if tier == "quick":
+        lists, dicts = lists[:4], dicts[:3]
+    for a, b in lists:
+        for cls in (("JSONList", "JSONAttrList") if tier != "quick" else ("JSONList",)):
+            out.append({"name": f"C11:{cls}:{a}|{b}:same-object", "cls": cls, "limit": 160,
+                        "threads": [thread_spec("T1", a, "o1"), thread_spec("T2", b, "o1")]})
+    for a, b in dicts:
+        out.append({"name": f"C11:JSONDict:{a}|{b}:same-object", "cls": "JSONDict", "limit": 160,
+                    "threads": [thread_spec("T1", a, "o1"), thread_spec("T2", b, "o1")]})
+    # a list nested in a dict root: the child shares the root's synchronisation state
+    out.append({"name": "C11:JSONDict:set_c|nested extend_badkey", "cls": "JSONDict", "limit": 160, "init_extra": True,
+                "threads": [thread_spec("T1", "set_c", "o1"), dict(thread_spec("T2", "extend_badkey", "o1", path=("l",)))]})
+    return out
 
 
 def scenarios_c09(tier):
@@ -417,6 +508,10 @@ def scenarios_c09(tier):
         for b in (["set_x", "clear_d", "n_set"] if tier != "quick" else ["set_x", "n_set"]):
             t2 = thread_spec("T2", b, "o2", path=("n",)) if b.startswith("n_") else thread_spec("T2", b, "o2")
             out.append({"name": f"C09:nested {a}|{b}", "cls": "JSONDict", "threads": [thread_spec("T1", a, "o1", path=("n",)), t2]})
+    # every thread opens its own object on a file nobody has opened yet (the per-file lock is created by the first constructor)
+    for a, b in ([("set_x", "set_y"), ("update", "del_a")] if tier == "quick" else [("set_x", "set_y"), ("update", "del_a"), ("set_c", "popitem"), ("reset_d", "set_x")]):
+        out.append({"name": f"C09:{a}|{b}:objects-constructed-in-the-threads", "cls": "JSONDict", "limit": 400 if tier == "quick" else 1500,
+                    "threads": [dict(thread_spec("T1", a, "t1", file=1), construct=True), dict(thread_spec("T2", b, "t2", file=1), construct=True)]})
     if tier != "quick":
         for cls in ("JSONAttrDict", "BufferedJSONDict", "MemoryBufferedJSONDict"):
             for a, b in [("set_x", "clear_d"), ("update", "reset_d")]:
@@ -451,6 +546,19 @@ def scenarios_c13(tier):
             for a, b in lcombos:
                 out.append({"name": f"C13:{cls_l}:cap={cap}:{a}|{b}:two-files", "cls": cls_l, "buffered": True, "cap": cap,
                             "threads": [thread_spec("T1", a, "o1"), thread_spec("T2", b, "o2", file=1)]})
+            # values that are containers (converted to nested collections) next to another writer on the same root / a nested child
+            for a, b, p2 in [("set_c", "set_x", ()), ("set_c", "n_set", ("n",)), ("update_c", "del_a", ())]:
+                out.append({"name": f"C13:{cls_d}:cap={cap}:{a}|{b}:same-object nested value", "cls": cls_d, "buffered": True, "cap": cap, "limit": 400,
+                            "threads": [thread_spec("T1", a, "o1"), thread_spec("T2", b, "o1", path=p2)]})
+            out.append({"name": f"C13:{cls_l}:cap={cap}:append_c|append:same-object nested value", "cls": cls_l, "buffered": True, "cap": cap, "limit": 400,
+                        "threads": [thread_spec("T1", "append_c", "o1"), thread_spec("T2", "append", "o1")]})
+            # a reader on a private object whose load overfills the buffer evicts (force-flushes) ANOTHER file that a writer
+            # thread has modified in the buffer and keeps modifying
+            if cap and not cls_d.startswith("Memory"):
+                # capacity 40: one document fits, two do not (the reader's load of file 0 evicts file 1)
+                out.append({"name": f"C13:{cls_d}:cap=40:evicting private reader|writer on the evicted file", "cls": cls_d, "buffered": True, "cap": 40, "limit": 700,
+                            "pre": [{"obj": "o2", "file": 1, "op": ["DSet", "pre", 1]}],
+                            "threads": [thread_spec("R", "r_call_d", "o1", read=True), thread_spec("W", "set_x", "o2", file=1)]})
     return out
 
 
@@ -545,7 +653,7 @@ if __name__ == "__main__":
     else:
         which = sys.argv[1] if len(sys.argv) > 1 else "c09"
         tier = sys.argv[2] if len(sys.argv) > 2 else "quick"
-        specs = {"c09": scenarios_c09, "c13": scenarios_c13, "c14": scenarios_c14, "d18": scenarios_d18}[which](tier)
+        specs = {"c09": scenarios_c09, "c13": scenarios_c13, "c14": scenarios_c14, "d18": scenarios_d18, "c11": scenarios_c11}[which](tier)
         t = time.time()
         rs = run_scenarios(specs, tier, 1)
         s = summarise(which, rs, which)
